@@ -27,8 +27,12 @@ RULE = ("four parts. (composite) return types with owned leaves inside Option/Re
 # ---------------------------------------------------------------- races
 def race_case(rng, nth, nreq):
     mid = rng.choice([4, 5, 0])
-    form = rng.choice(["some", "some_once", "next", "then"])
-    if form == "some":
+    form = rng.choice(["some", "some_once", "next", "then", "each", "each_n"])
+    if form in ("each", "each_n"):
+        # a REPEATABLE value (the stored original is cloned per request): concurrent requests must all be served
+        mid = 0
+        terms = [{"kind": "call", "mid": mid, "opener": "each", "pat": {"matcher": 255, "dbg": 1, "ops": [("ret", 7)] + ([("n", 3)] if form == "each_n" else [])}}]
+    elif form == "some":
         terms = [{"kind": "call", "mid": mid, "opener": "some", "pat": {"matcher": 255, "dbg": 1, "ops": [("ret", 7)]}}]
     elif form == "some_once":
         terms = [{"kind": "call", "mid": mid, "opener": "some", "pat": {"matcher": 255, "dbg": 1, "ops": [("ret", 7), ("once",)]}}]
@@ -53,7 +57,8 @@ def race_cases(rng, tier, eng):
     base = eng.model(small)
     from .C10 import op_counts
     for c, obs in zip(small, base):
-        scheds = list(B.all_schedules(op_counts(obs, len(c["threads"]))))
+        # two spare steps per thread: interleavings of operations the model does not have are explored too
+        scheds = list(B.all_schedules([min(n + 2, 6) for n in op_counts(obs, len(c["threads"]))]))
         if len(scheds) > 300:
             scheds = rng.sample(scheds, 300)
         for s in scheds:
@@ -77,7 +82,7 @@ def history_case(rng):
     for _ in range(rng.randint(0, 6)):
         evs.append({"base": ("call", rng.randrange(2), rng.choice(mids), rng.randrange(8))})
         evs.append({"base": ("live",)})
-    evs += [{"base": ("drop", 1)}, {"base": ("live",)}, {"base": (rng.choice(["drop", "verify"]), 0)}, {"base": ("live",)}]
+    evs += [{"base": ("drop", 1)}, {"base": ("live",)}, {"base": (rng.choice(["drop", "verify", "report"]), 0)}, {"base": ("live",)}]
     return {"partial": rng.random() < 0.2, "terms": terms, "events": evs}
 
 
